@@ -8,6 +8,7 @@ R3 lock-free list push protocol and orderings
 R4 MacroCallsite registration state machine
 R5 re-evaluation after every turnover (C01.R5–R7)
 """
+from rulekit.query import rebuild_interest_path
 from rulekit import Facts, where
 from rulekit.sym import PathEval, show
 from rulekit.query import ordering_of, ORD_RANK, recv_fields, const_int
@@ -150,7 +151,7 @@ def r1(ck, F, rid="C04.R1"):
 
 def r2(ck, F):
     # everything reachable (resolved, within tracing_core) from the functions called while the lock is held
-    roots = [CS + "rebuild_callsite_interest", CS + "rebuild_interest", LL + "push", LL + "for_each",
+    roots = [CS + "rebuild_callsite_interest", rebuild_interest_path(F), LL + "push", LL + "for_each",
              "tracing_core::dispatch::Dispatch::registrar", "tracing_core::dispatch::Dispatch::collector",
              "tracing_core::dispatch::Registrar::upgrade", "tracing_core::dispatch::Dispatch::register_callsite",
              "tracing_core::dispatch::Dispatch::max_level_hint", "tracing_core::metadata::LevelFilter::set_max"]
@@ -336,7 +337,7 @@ def r5(ck, F):
         b = F.body(CS + fn)
         if not ck.anchor("C04.R5", fn, b):
             continue
-        rb = [bb for bb, t in b.calls() if t["callee"].get("path") == CS + "rebuild_interest"]
+        rb = [bb for bb, t in b.calls() if t["callee"].get("path") == rebuild_interest_path(F)]
         if len(rb) == 1 and b.postdominates(rb[0], 0):
             ck.ok("C04.R5", "%s re-evaluates every callsite and the max level" % fn, fn=b.path)
         else:
@@ -407,7 +408,7 @@ def r9(ck):
     N = Facts("nostd-core")
     ck.configs.append("nostd-core")
     b = N.body(CS + "register")
-    rb = N.body(CS + "rebuild_interest")
+    rb = N.body(rebuild_interest_path(N))
     key = "no_std register: computing the interest and pushing the callsite are one step with respect to a rebuild"
     if not (ck.anchor("C04.R9", "no_std register", b) and ck.anchor("C04.R9", "no_std rebuild_interest", rb)):
         return
@@ -428,7 +429,7 @@ def r9(ck):
         return
     excl = exclusion_calls(b)
     callers_excl = []
-    for c, _bb, _t in N.callers().get(CS + "rebuild_interest", []):
+    for c, _bb, _t in N.callers().get(rebuild_interest_path(N), []):
         callers_excl += exclusion_calls(c)
     if excl and all(any(b.dominates(e, o) for e in excl) for o in ops) and (exclusion_calls(rb) or callers_excl):
         ck.ok("C04.R9", key, fn=b.path)
